@@ -1,14 +1,32 @@
+# part 0: every field of every record through the real converters + the socket family (engine A)
+_MAIN = {
+    "pkg": ".", "hdir": "dastard", "harness": DASTARD_COMMON + ["zz_verif_c14_test.go"], "test": "TestVerifC14",
+    "engines": ["vexp"],
+    "quick": T(16, 60), "thorough": T(16, 600),
+    "env": {"GODEBUG": "asyncpreemptoff=1"},  # fewer signals: dastard's publisher drops a message when zmq_send is interrupted by one
+}
+# part 1: race probe -- the two PUB-socket goroutines convert the same records concurrently in a race-detector build
+# (zz_verif_raceprobe_test.go also holds the C08 probe, hence the trigger-driver files)
+_RACE = {
+    "pkg": ".", "hdir": "dastard", "harness": DASTARD_COMMON + ["zz_verif_trig_test.go", "zz_verif_c08_test.go", "zz_verif_raceprobe_test.go"], "test": "TestVerifC14Race",
+    "engines": ["vexp", "vhook"], "runtime_patch": True, "race": True, "gomaxprocs": 4,
+    "quick": T(16, 60), "thorough": T(16, 300),
+    "env": {"GODEBUG": "asyncpreemptoff=1"},
+}
 ENTRY = {
-    "C14": {
-        "pkg": ".", "hdir": "dastard", "harness": DASTARD_COMMON + ["zz_verif_c14_test.go"], "test": "TestVerifC14",
-        "quick": T(16, 60), "thorough": T(16, 600),
-        "env": {"GODEBUG": "asyncpreemptoff=1"},  # fewer signals: dastard's publisher drops a message when zmq_send is interrupted by one
+    "C14": dict(_MAIN, **{
+        "parts": [_MAIN, _RACE],
         "rule": "one execution = one DataRecord (cross product of boundary alphabets for every field) encoded by the real messageRecords or messageSummaries "
                 "and decoded by a decoder written from doc/BINARY_FORMATS.md (2 frames, 36-byte record header / 48-byte summary header, documented offsets, "
                 "little-endian, type code 2/3, payload exactly the samples / float64 coefficients, bytes 0-1 = channel); every field must be recovered exactly "
-                "(NaN by class; float64 analysis values as their IEEE float32 rounding); non-trivial = the record has samples or coefficients",
+                "(NaN by class; float64 analysis values as their IEEE float32 rounding); non-trivial = the record has samples or coefficients. "
+                "Race-probe part: one execution = 1-3 rounds of record batches for three channels pushed by the real PublishData (one goroutine per channel) into the channels of the real "
+                "startSocket(messageRecords) and startSocket(messageSummaries) goroutines, which convert the same records at the same time (free-running, GOMAXPROCS 4) in a race-detector build; "
+                "every race report with both accesses in repository code is a violation; non-trivial = at least two records were published",
         "assumptions": ["summary header length taken from the documented field table (last field at byte 40, 8 bytes = 48); the sentence above the table says 36, copied from the record section",
                         "channel index within 0..65535, trigger time within the UnixNano range",
-                        "sample count and pre-trigger count decoded as unsigned 32-bit, trigger time and frame as signed 64-bit two's complement"],
-    },
+                        "sample count and pre-trigger count decoded as unsigned 32-bit, trigger time and frame as signed 64-bit two's complement",
+                        "race-probe part: the race detector is happens-before based (a report does not depend on the actual timing of the goroutines) but keeps a bounded access history per word, "
+                        "does not see accesses inside cgo/ZMQ and reports one pair of stacks once per process; the messages are not received (no SUB socket)"],
+    }),
 }
